@@ -51,7 +51,12 @@ D1More == {
   Fn("fabs", y), Fn("fabs", KI(-1)), MCall("copysign", << KI(-1), x >>), MCall("copysign", << x, KI(1) >>),
   MCall("copysign", << y, x >>), IfE(Cmp(x, ">=", y), x, y), IfE(Lt0, KI(-1), KI(1)),
   CSE(Fn("sin", x), "pre", "pymbolic_expr"), Fn("sqrt", x), Call(ff, << x, y >>), MCall("sin", << x, y >>),
-  MCall("atan2", << y, x >>) }
+  MCall("atan2", << y, x >>), N("Sum", << x >>), N("Product", << x >>) }
+\* roots only (not in the pools): witnesses of the named deviations and wrapped constants
+RootsOnly == { B("Power", x, CSE0(KI(2))), B("Power", N("Sum", << x, y >>), CSE0(y)),
+               B("Power", x, IfE(Cmp(y, "<", KI(0)), KI(2), KI(3))), B("Power", CSE0(y), x),
+               B("Quotient", x, CSE0(y)), B("Quotient", CSE0(y), x),
+               N("Product", << x, Fn("log", KI(3)) >>), Fn("log", KI(1)), Fn("log", half) }
 D1 == IF Quick THEN D1Q ELSE D1Q \cup D1More
 
 HoleT(ty) == [t |-> "Hole", ty |-> ty]
@@ -89,7 +94,7 @@ Deep == { N("Sum", << M, L >>), N("Product", << M, L >>), N("Product", << L, M >
           B("Quotient", L, M), B("Power", M, Ex), B("Power", S, M), Fn("sin", M), Fn("log", M), Fn("tan", M),
           Fn("cosh", M), Fn("expm1", M), Fn("fabs", M), IfE(Cn, M, L), CSE0(M) }
 
-AllRoots == Roots(A) \cup Leaves \cup D1 \cup (IF Quick THEN {} ELSE Deep)
+AllRoots == Roots(A) \cup Leaves \cup D1 \cup RootsOnly \cup (IF Quick THEN {} ELSE Deep)
 
 \* differentiation variables: x (and y beyond the quick tier) for every tree; a[0] where it occurs;
 \* a[0] and z where they do NOT occur only for trees with at most one non-leaf child
@@ -117,14 +122,19 @@ Next == \/ /\ NHoles(tree) > 0
            /\ var' \in VarsFor(tree) /\ UNCHANGED tree
 
 \* ---- random tier: deeper trees, random fills (tlc -simulate) ----------------
+M2 == HoleT("mid2")
 SimRoots == Roots(M) \cup Deep
-SimPool(ty) == IF ty = "any" THEN Leaves \cup D1 \cup Mid(S) ELSE PoolFor(ty)
+SimPool(ty) == CASE ty = "any"  -> Leaves \cup D1 \cup Mid(S)
+                 [] ty = "mid"  -> Mid(M2) \cup { x, y }
+                 [] ty = "mid2" -> Mid(S) \cup SmallSet \cup { a0, KI(2) }
+                 [] OTHER -> PoolFor(ty)
+SimVars == << x, x, x, y, y, a0, z >>
 SimInit == tree \in SimRoots /\ var = Unset
 SimNext == \/ /\ NHoles(tree) > 0
               /\ tree' = FillFirst(tree, RandomElement(SimPool(FirstHoleTy(tree))))
               /\ UNCHANGED var
            \/ /\ NHoles(tree) = 0 /\ var = Unset
-              /\ var' = RandomElement(VarsT) /\ UNCHANGED tree
+              /\ var' = SimVars[RandomElement(1..Len(SimVars))] /\ UNCHANGED tree
 
 Complete == NHoles(tree) = 0 /\ var # Unset
 
